@@ -9,6 +9,7 @@ CONSTANTS
   EstOf <- EstZero
   WithConsumer = FALSE
   WithSweeper = TRUE
+  KeepHist = FALSE
 INVARIANT NoViolation
 INVARIANT Inv_C01
 INVARIANT Inv_TypeOK
